@@ -529,6 +529,126 @@ fn regressions() -> Vec<Vec<D>> {
     ]
 }
 
+// ---------------------------------------------------------------- systematic placement families (generator audit G3)
+
+/// all orderings of `items` that keep every listed pair (a before b) in that order
+fn orderings(n: usize, before: &[(usize, usize)]) -> Vec<Vec<usize>> {
+    fn go(n: usize, cur: &mut Vec<usize>, out: &mut Vec<Vec<usize>>) {
+        if cur.len() == n { out.push(cur.clone()); return; }
+        for i in 0..n { if !cur.contains(&i) { cur.push(i); go(n, cur, out); cur.pop(); } }
+    }
+    let mut all = vec![];
+    go(n, &mut vec![], &mut all);
+    all.into_iter().filter(|o| before.iter().all(|(a, b)| o.iter().position(|x| x == a) < o.iter().position(|x| x == b))).collect()
+}
+
+/// cut patterns of a sequence of `n` definitions: quick = one source / every definition its own source; thorough = all
+fn cut_patterns(n: usize, thorough: bool) -> Vec<Vec<usize>> {
+    if n < 2 { return vec![vec![]]; }
+    if thorough { (0..1usize << (n - 1)).map(|m| (1..n).filter(|c| m & (1 << (c - 1)) != 0).collect()).collect() }
+    else { vec![vec![], (1..n).collect()] }
+}
+
+/// One type `X` of every kind: its definition D, two extensions E1, E2 of the same kind (in that order), an
+/// extension M of another kind, a second definition D2 — in EVERY order, with and without duplicate members.
+fn type_placement_family(ctx: &mut Ctx, tpl: &Templates) {
+    let pools: [[&str; 4]; 6] = [["", "", "", ""], ["f0", "f1", "f2", "f3"], ["f0", "f1", "f2", "f3"], ["A", "B", "C", "D"], ["V0", "V1", "V2", "V3"], ["f0", "f1", "f2", "f3"]];
+    let mut n = 0usize;
+    for kind in 0..6usize {
+        let p = pools[kind];
+        let ms = |xs: &[usize]| -> Vec<&str> { if kind == 0 { vec![] } else { xs.iter().map(|i| p[*i]).collect() } };
+        let other = (kind + 1) % 6;
+        for dups in [false, true] {
+            let mut d = t(kind, "X", &ms(&[0]));
+            let mut e1 = with_dirs(e(kind, "X", &ms(if dups { &[0, 1] } else { &[1] })), &["d0"]);
+            let mut e2 = with_dirs(e(kind, "X", &ms(if dups { &[1, 2] } else { &[2] })), if kind == 0 { &["d1"] } else { &[] });
+            if kind == 1 || kind == 2 { d = with_ifaces(d, &["I0"]); e1 = with_ifaces(e1, &["I1"]); e2 = with_ifaces(e2, if dups { &["I0", "I2"] } else { &["I2"] }); }
+            let m = if other == 0 { with_dirs(e(0, "X", &[]), &["d1"]) } else { e(other, "X", &[pools[other][3]]) };
+            let d2 = t(if dups { kind } else { other }, "X", &(if dups { ms(&[3]) } else if other == 0 { vec![] } else { vec![pools[other][3]] }));
+            let sets: [(Vec<D>, Vec<(usize, usize)>); 3] = [
+                (vec![d.clone(), e1.clone(), e2.clone()], vec![(1, 2)]),
+                (vec![d.clone(), e1.clone(), e2.clone(), m.clone()], vec![(1, 2)]),
+                (vec![d.clone(), e1.clone(), e2.clone(), m.clone(), d2.clone()], vec![(1, 2), (0, 4)]),
+            ];
+            for (items, constraints) in sets {
+                // quick tier: the four-element set only with duplicates, the five-element set only cut into single definitions
+                if !ctx.thorough && items.len() == 4 && !dups { continue; }
+                for ord in orderings(items.len(), &constraints) {
+                    let ds: Vec<D> = ord.iter().map(|i| items[*i].clone()).collect();
+                    for cuts in cut_patterns(ds.len(), ctx.thorough) {
+                        if !ctx.thorough && items.len() == 5 && cuts.is_empty() { continue; }
+                        n += 1;
+                        ctx.stat("family_type_placement");
+                        schema_case(ctx, tpl, &ds, &cuts, false, false, n);
+                        if ctx.thorough && n % 4 == 0 { schema_case(ctx, tpl, &ds, &cuts, true, n % 8 == 0, n); }
+                    }
+                }
+            }
+        }
+    }
+}
+
+/// extension kind × definition kind (all 36 pairs), the extension before / after / on both sides of the definition;
+/// and, with `adopt_orphan_extensions`, two orphan extensions of every pair of kinds (the first one decides the kind)
+fn kind_matrix_family(ctx: &mut Ctx, tpl: &Templates) {
+    let body = |k: usize, i: usize| -> Vec<&'static str> { match k { 0 => vec![], 3 => vec![["A", "B"][i]], 4 => vec![["V0", "V1"][i]], _ => vec![["f0", "f1"][i]] } };
+    let mut n = 0usize;
+    for dk in 0..6usize { for ek in 0..6usize {
+        let d = t(dk, "X", &body(dk, 0));
+        let mk_e = |i: usize| { let x = e(ek, "X", &body(ek, i)); if ek == 0 { with_dirs(x, &["d0"]) } else { x } };
+        for place in 0..3 {
+            let ds = match place { 0 => vec![mk_e(1), d.clone()], 1 => vec![d.clone(), mk_e(1)], _ => vec![mk_e(0), d.clone(), mk_e(1)] };
+            for cuts in cut_patterns(ds.len(), ctx.thorough) {
+                n += 1;
+                ctx.stat("family_kind_matrix");
+                schema_case(ctx, tpl, &ds, &cuts, false, false, n);
+            }
+        }
+        // orphans only
+        let mk = |k: usize, i: usize| { let x = e(k, "X", &body(k, i)); if k == 0 { with_dirs(x, &["d0"]) } else { x } };
+        let ds = vec![mk(dk, 0), mk(ek, 1), mk(dk, 1)];
+        for cuts in cut_patterns(ds.len(), ctx.thorough) {
+            ctx.stat("family_kind_matrix_adopted");
+            schema_case(ctx, tpl, &ds, &cuts, true, false, n);
+            if ctx.thorough { schema_case(ctx, tpl, &ds, &cuts, false, false, n); }
+        }
+    } }
+}
+
+/// `schema` definition S, two schema extensions X1, X2 (in that order), a second definition S2, in every order;
+/// without any definition (implicit roots when `type Query` exists, orphans otherwise); root operations that collide
+fn schema_placement_family(ctx: &mut Ctx, tpl: &Templates) {
+    let mut n = 0usize;
+    for x1_collides in [false, true] { for has_query in [false, true] {
+        let s = sch(Tag::SchemaDef, &["d1"], &[("query", "T0")]);
+        let x1 = if x1_collides { sch(Tag::SchemaExt, &[], &[("query", "T1"), ("mutation", "T0")]) } else { sch(Tag::SchemaExt, &[], &[("mutation", "T0")]) };
+        let x2 = sch(Tag::SchemaExt, &["d0"], if x1_collides { &[("mutation", "T1"), ("subscription", "T1")] } else { &[("subscription", "T1")] });
+        let s2 = sch(Tag::SchemaDef, &[], &[("query", "T1")]);
+        let mut types = vec![t(1, "T0", &["f0"]), t(1, "T1", &["f0"])];
+        if has_query { types.push(t(1, "Query", &["f0"])); }
+        let sets: [(Vec<D>, Vec<(usize, usize)>); 3] = [
+            (vec![x1.clone(), x2.clone()], vec![(0, 1)]),
+            (vec![x1.clone(), x2.clone(), s.clone()], vec![(0, 1)]),
+            (vec![x1.clone(), x2.clone(), s.clone(), s2.clone()], vec![(0, 1), (2, 3)]),
+        ];
+        for (items, constraints) in sets {
+            for ord in orderings(items.len(), &constraints) {
+                let mut ds: Vec<D> = ord.iter().map(|i| items[*i].clone()).collect();
+                // the types in the middle, so that extensions may sit on both sides of `type Query`
+                let at = ds.len() / 2;
+                for (k, ty) in types.iter().enumerate() { ds.insert(at + k, ty.clone()); }
+                for cuts in cut_patterns(ds.len(), false).into_iter().chain(if ctx.thorough { vec![vec![1], vec![at], vec![at + types.len()]] } else { vec![vec![at]] }) {
+                    for adopt in [false, true] {
+                        n += 1;
+                        ctx.stat("family_schema_placement");
+                        schema_case(ctx, tpl, &ds, &cuts, adopt, false, n);
+                    }
+                }
+            }
+        }
+    } }
+}
+
 // ---------------------------------------------------------------- executable documents
 
 #[derive(Clone)]
@@ -555,19 +675,21 @@ fn xrender(x: &X) -> (String, usize, usize, Vec<usize>) {
 
 const XSCHEMA: &str = "type Query { a: Int b: Int s: Int } type Subscription { s: Int a: Int b: Int }";
 
-fn xbuild(schema: &Valid<Schema>, texts: &[String]) -> (ExecutableDocument, DiagnosticList) {
+fn xbuild(schema: Option<&Valid<Schema>>, texts: &[String]) -> (ExecutableDocument, DiagnosticList) {
     let mut errors = DiagnosticList::new(Default::default());
-    let mut b = ExecutableDocument::builder(Some(schema), &mut errors);
+    let mut b = ExecutableDocument::builder(schema, &mut errors);
     for (i, t) in texts.iter().enumerate() { b = b.parse(t.clone(), format!("s{i}.graphql")); }
     let doc = b.build();
     (doc, errors)
 }
 
 fn xcase(ctx: &mut Ctx, tpl: &Templates, schema: &Valid<Schema>, xs: &[X], cuts: &[usize]) {
-    let mut srcs: Vec<Vec<X>> = vec![];
-    let mut prev = 0;
-    for &c in cuts { srcs.push(xs[prev..c].to_vec()); prev = c; }
-    srcs.push(xs[prev..].to_vec());
+    xcase_multi(ctx, tpl, Some(schema), xs, &[cuts.to_vec()]);
+}
+
+/// `schema` = None: the builder without a schema (every root operation and type condition is accepted, no field is
+/// looked up); several cut patterns share one run of the concatenation
+fn xcase_multi(ctx: &mut Ctx, tpl: &Templates, schema: Option<&Valid<Schema>>, xs: &[X], cut_sets: &[Vec<usize>]) {
     let run = |ctx: &mut Ctx, srcs: &[Vec<X>]| -> (String, Vec<String>, Vec<String>) {
         let (mut texts, mut bases, mut encs, mut base) = (vec![], vec![], vec![], 0usize);
         for src in srcs {
@@ -577,9 +699,9 @@ fn xcase(ctx: &mut Ctx, tpl: &Templates, schema: &Valid<Schema>, xs: &[X], cuts:
             for x in src {
                 let (t, np, cp, inner) = xrender(x);
                 let start = base + text.len();
-                let root_ok = x.optype != "mutation";
-                let cond_ok = x.cond != "Nope";
-                let inner: Vec<usize> = if x.kind == 1 && !cond_ok { vec![] } else { inner };
+                let root_ok = schema.is_none() || x.optype != "mutation";
+                let cond_ok = schema.is_none() || x.cond != "Nope";
+                let inner: Vec<usize> = if schema.is_none() || (x.kind == 1 && !cond_ok) { vec![] } else { inner };
                 ed.push(format!("{},{},{start},{},{},{},{},{}", ["O", "F", "T"][x.kind as usize], x.name.as_deref().unwrap_or("-"), start + np, start + cp,
                     root_ok as u8, cond_ok as u8, inner.iter().map(|p| (start + p).to_string()).collect::<Vec<_>>().join("+")));
                 text.push_str(&t); text.push('\n');
@@ -604,15 +726,50 @@ fn xcase(ctx: &mut Ctx, tpl: &Templates, schema: &Valid<Schema>, xs: &[X], cuts:
         let names = vec![format!("anon={}", doc.operations.anonymous.is_some()), doc.operations.named.keys().map(|k| k.to_string()).collect::<Vec<_>>().join(","), doc.fragments.keys().map(|k| k.to_string()).collect::<Vec<_>>().join(","), doc.to_string()];
         (texts.concat(), names, messages(&errors))
     };
-    let (text, names, msgs) = run(ctx, &srcs);
-    if srcs.len() > 1 {
-        let (_, names1, msgs1) = run(ctx, &[xs.to_vec()]);
-        ctx.stat("exec_split_vs_concat");
-        let inp = format!("executable sources cut at {cuts:?}: {}", text.replace('\n', " "));
-        if names != names1 { ctx.fail("executable-sources-vs-concat-definitions", &inp, &format!("split {names:?} / concatenated {names1:?}")); }
-        if msgs != msgs1 { ctx.fail("executable-sources-vs-concat-diagnostics", &inp, &format!("split {msgs:?} / concatenated {msgs1:?}")); }
-        if !msgs1.is_empty() { ctx.stat("exec_with_diagnostics"); }
-        ctx.nontrivial(&inp);
+    let mut whole: Option<(Vec<String>, Vec<String>)> = None;
+    for cuts in cut_sets {
+        let mut srcs: Vec<Vec<X>> = vec![];
+        let mut prev = 0;
+        for &c in cuts { srcs.push(xs[prev..c].to_vec()); prev = c; }
+        srcs.push(xs[prev..].to_vec());
+        let (text, names, msgs) = run(ctx, &srcs);
+        if srcs.len() > 1 {
+            if whole.is_none() { let (_, n1, m1) = run(ctx, &[xs.to_vec()]); whole = Some((n1, m1)); }
+            let (names1, msgs1) = whole.clone().unwrap();
+            ctx.stat("exec_split_vs_concat");
+            if schema.is_none() { ctx.stat("exec_split_vs_concat_without_schema"); }
+            let inp = format!("executable sources{} cut at {cuts:?}: {}", if schema.is_none() { " (builder without schema)" } else { "" }, text.replace('\n', " "));
+            if names != names1 { ctx.fail("executable-sources-vs-concat-definitions", &inp, &format!("split {names:?} / concatenated {names1:?}")); }
+            if msgs != msgs1 { ctx.fail("executable-sources-vs-concat-diagnostics", &inp, &format!("split {msgs:?} / concatenated {msgs1:?}")); }
+            if !msgs1.is_empty() { ctx.stat("exec_with_diagnostics"); }
+            ctx.nontrivial(&inp);
+        }
+    }
+}
+
+/// Every sequence of up to `max_len` definitions over a seven-letter alphabet (anonymous query, anonymous mutation whose
+/// root type is undefined, named query, named mutation of the same name, fragment, fragment of the same name on an
+/// undefined type, type-system definition), under every way of cutting it into sources.
+fn exec_sequences(ctx: &mut Ctx, tpl: &Templates, schema: Option<&Valid<Schema>>, max_len: usize) {
+    let alphabet: Vec<X> = vec![
+        X { kind: 0, optype: "query", name: None, cond: "", fields: vec!["a"] },
+        X { kind: 0, optype: "mutation", name: None, cond: "", fields: vec!["zz"] },
+        X { kind: 0, optype: "query", name: Some("A".into()), cond: "", fields: vec!["zz", "b"] },
+        X { kind: 0, optype: "mutation", name: Some("A".into()), cond: "", fields: vec!["a"] },
+        X { kind: 1, optype: "", name: Some("F".into()), cond: "Query", fields: vec!["a", "zz"] },
+        X { kind: 1, optype: "", name: Some("F".into()), cond: "Nope", fields: vec!["zz"] },
+        X { kind: 2, optype: "", name: Some("S".into()), cond: "", fields: vec![] },
+    ];
+    for len in 2..=max_len {
+        // quick tier: sequences of three definitions leave out the type-system definition
+        let k = if len >= 3 && !ctx.thorough { alphabet.len() - 1 } else { alphabet.len() };
+        for code in 0..k.pow(len as u32) {
+            let xs: Vec<X> = (0..len).map(|i| alphabet[(code / k.pow(i as u32)) % k].clone()).collect();
+            // all non-empty sets of cut points
+            let cut_sets: Vec<Vec<usize>> = (1..1usize << (len - 1)).map(|m| (1..len).filter(|c| m & (1 << (c - 1)) != 0).collect()).collect();
+            ctx.stat("family_exec_sequences");
+            xcase_multi(ctx, tpl, schema, &xs, &cut_sets);
+        }
     }
 }
 
@@ -712,7 +869,15 @@ pub fn run(ctx: &mut Ctx) {
     for xs in &xregs {
         for cut in 0..xs.len() { xcase(ctx, &tpl, &xschema, xs, &if cut == 0 { vec![] } else { vec![cut] }); }
         xcase(ctx, &tpl, &xschema, xs, &(1..xs.len()).collect::<Vec<_>>());
+        xcase_multi(ctx, &tpl, None, xs, &[vec![1], (1..xs.len()).collect::<Vec<_>>()]);
     }
+
+    // 1b. systematic families: every placement of extensions / second definitions, every kind pair, every cut
+    type_placement_family(ctx, &tpl);
+    kind_matrix_family(ctx, &tpl);
+    schema_placement_family(ctx, &tpl);
+    exec_sequences(ctx, &tpl, Some(&xschema), if ctx.thorough { 4 } else { 3 });
+    exec_sequences(ctx, &tpl, None, if ctx.thorough { 3 } else { 2 });
 
     // 2. random definition sequences over few names (collisions, duplicates and mismatches are frequent)
     let n_cases = if ctx.thorough { 40_000 } else { 4_000 };
@@ -724,6 +889,8 @@ pub fn run(ctx: &mut Ctx) {
         let cuts = random_cuts(ctx, n);
         let adopt = ctx.rng.chance(1, 4);
         let ignore = ctx.rng.chance(1, 6);
+        // every tenth sequence: each definition is a source of its own
+        let cuts = if i % 10 == 9 { ctx.stat("schema_every_definition_its_own_source"); (1..n).collect() } else { cuts };
         schema_case(ctx, &tpl, &ds, &cuts, adopt, ignore, i);
     }
 
